@@ -1,0 +1,21 @@
+//go:build verif
+
+// Contracts for the watermill verification harness (/verif, tool "gowp"). Comment-only.
+
+package gochannel
+
+// ---- fan-out (C17) ----
+
+//@ type FanOut
+//@   self f
+//@   monitor subscribedLock guards subscribedTopics
+//@   invariant f.subscribedTopics != nil [mon:subscribedLock:table-exists]
+
+//@ func (*FanOut).AddSubscription
+//@   ghost atomic
+//@   requires f != nil && f.internalRouter != nil && f.internalRouter.handlersLock != nil && f.internalRouter.handlersWg != nil
+//@   ensures old(has(f.subscribedTopics, topic)) ==> ncalls(ADDH) == old(ncalls(ADDH)) [already-subscribed-topics-are-not-added-twice]
+//@   ensures !old(has(f.subscribedTopics, topic)) ==> ncalls(ADDH) == old(ncalls(ADDH)) + 1 && sarg(ADDH, 0, old(ncalls(ADDH))) == f.internalRouter && sarg(ADDH, 2, old(ncalls(ADDH))) == topic && sarg(ADDH, 3, old(ncalls(ADDH))) == f.subscriber && sarg(ADDH, 4, old(ncalls(ADDH))) == topic && sarg(ADDH, 5, old(ncalls(ADDH))) == boxed(f.internalPubSub) && sarg(ADDH, 6, old(ncalls(ADDH))) == message.PassthroughHandler [relays-the-topic-unchanged-into-the-internal-pubsub-by-the-passthrough-handler]
+//@   ensures has(f.subscribedTopics, topic) [remembered]
+//@   panics-ensures !old(has(f.subscribedTopics, topic)) [only-a-duplicate-handler-name-in-the-internal-router-panics]
+//@   modifies map(f.subscribedTopics), map(f.internalRouter.handlers), wg(f.internalRouter.handlersWg)
